@@ -204,10 +204,11 @@ Section Repl.
 
   (* is the value getRefinedValue returns the node itself (no copy)? *)
   Definition refined_is_live (opts : option field_options) : bool :=
-    match opts with
-    | None => true
-    | Some o => String.eqb (fo_delimiter o) ""
-    end.
+    if gen_replacement_source_copied then false      (* getRefinedValue returns rn.Copy() *)
+    else match opts with
+         | None => true
+         | Some o => String.eqb (fo_delimiter o) ""
+         end.
 
   (* getReplacement *)
   Definition get_replacement (rs : list node) (r : replacement) : res vstate :=
